@@ -98,6 +98,9 @@ func runC10(c *core.Ctx) {
 	importObligations(c, runC17, "R7", func(o *core.Obligation) bool { return o.Rule == "R7" })
 	importObligations(c, runC19, "R7", func(o *core.Obligation) bool { return o.Rule == "R3" })
 
+	c.Rule("R8", "memory given back to a pool is not handed to the caller: no function returns (a view of) an object it puts, deferred puts included", 1)
+	runNoEscapeAfterPut(c, "R8")
+
 	// ---- R1
 	for _, E := range r.Enqueuers {
 		c.FuncsSeen[p.QName(E)] = true
@@ -238,9 +241,112 @@ func runC10(c *core.Ctx) {
 		c.Check(fresh, "R3", name+"/fresh-pointer", p.InstrPos(in), "each recycled packet is put through its own pointer", "several recycled packets are returned to the pool through one shared pointer (later Gets hand the same backing array to two owners)")
 	})
 
+	// every Put in the sender or one of its closures (a deferred clean-up included) returns a packet that this
+	// round dequeued: the list it ranges over starts empty (`field[:0]`) and grows by appends only; a re-slice to the
+	// capacity exposes the stale entries of earlier batches, which were recycled already
+	for _, f := range core.WithAnon(S) {
+		core.AllInstrs(f, func(in ssa.Instruction) {
+			if !isPbytes(in, "Put") {
+				return
+			}
+			c.Instance("R3")
+			arg := core.CallCommon(in).Args[0]
+			var vals []ssa.Value
+			if al, ok := core.Unwrap(arg).(*ssa.Alloc); ok {
+				for _, ref := range *al.Referrers() {
+					if st, ok := ref.(*ssa.Store); ok && st.Addr == ssa.Value(al) {
+						vals = append(vals, st.Val)
+					}
+				}
+			} else {
+				vals = []ssa.Value{arg}
+			}
+			good, why := len(vals) > 0, "the recycled buffer is not a local cell"
+			seen := map[ssa.Value]bool{}
+			var list func(v ssa.Value, d int)
+			// list: v is the slice of packets being recycled
+			list = func(v ssa.Value, d int) {
+				v = core.Unwrap(v)
+				if seen[v] || d > 12 || !good {
+					return
+				}
+				seen[v] = true
+				switch x := v.(type) {
+				case *ssa.Phi:
+					for _, ed := range x.Edges {
+						list(ed, d+1)
+					}
+				case *ssa.Slice:
+					if x.High != nil {
+						if k, isC := core.ConstInt(x.High); isC && k == 0 {
+							return // starts empty
+						}
+						if _, isCap := capArg(x.High); isCap {
+							good, why = false, "the recycle list is re-sliced to its capacity: entries of earlier batches, already returned to the pool, are put again (two later Gets share one buffer)"
+							return
+						}
+					}
+					list(x.X, d+1)
+				case *ssa.Call:
+					if args, ok := core.IsBuiltinCall(x, "append"); ok && len(args) > 0 {
+						list(args[0], d+1)
+						return
+					}
+					good, why = false, "the recycle list comes from "+x.Call.String()
+				case *ssa.UnOp:
+					if fl := core.ForwardLoad(x); fl != ssa.Value(x) {
+						list(fl, d+1)
+						return
+					}
+					good, why = false, "the recycle list is read from "+x.X.String()+" as it was left by earlier batches"
+				default:
+					good, why = false, "the recycle list is "+v.String()
+				}
+			}
+			var pkt func(v ssa.Value, d int)
+			// pkt: v is one packet (or a re-slice of it)
+			pkt = func(v ssa.Value, d int) {
+				v = core.Unwrap(v)
+				if d > 8 || !good {
+					return
+				}
+				switch x := v.(type) {
+				case *ssa.Slice:
+					pkt(x.X, d+1)
+				case *ssa.Phi:
+					for _, ed := range x.Edges {
+						pkt(ed, d+1)
+					}
+				case *ssa.Extract:
+					if sel, ok := x.Tuple.(*ssa.Select); ok && e.queueRecv(sel) {
+						return // the packet just dequeued
+					}
+					// element of a range-over-slice tuple is not produced by go/ssa (it indexes); anything else is unknown
+					good, why = false, "the recycled packet is "+v.String()
+				case *ssa.UnOp:
+					if ia, ok := x.X.(*ssa.IndexAddr); ok && x.Op == token.MUL {
+						list(ia.X, 0)
+						return
+					}
+					if fl := core.ForwardLoad(x); fl != ssa.Value(x) {
+						pkt(fl, d+1)
+						return
+					}
+					good, why = false, "the recycled packet is read from "+x.X.String()
+				default:
+					good, why = false, "the recycled packet is "+v.String()
+				}
+			}
+			for _, v := range vals {
+				pkt(v, 0)
+			}
+			c.Check(good, "R3", core.FName(S)+"/recycle/dequeued-this-round", p.InstrPos(in), "the recycled packet was dequeued by this sender round", "the sender recycles something other than the packets of the batch it just wrote: "+why)
+		})
+	}
+
 	// ---- R4 other Put sites
 	for _, fn := range p.Funcs {
-		if core.Outermost(fn) == S || p.PkgRel(fn) != "." {
+		if core.Outermost(fn) == S || strings.HasPrefix(p.PkgRel(fn), "utils/pool") {
 			continue
 		}
 		core.AllInstrs(fn, func(in ssa.Instruction) {
@@ -776,5 +882,124 @@ func runScratchDisjoint(c *core.Ctx, e *ev, R string) {
 	}
 	if n == 0 {
 		c.OK(R, "scratch-lists", "", "no allocation in the repository is stored into the channel's slice fields")
+	}
+}
+
+
+// isPoolPut: in (a call or a defer) returns an object to one of the typed pools.
+func isPoolPut(in ssa.Instruction) bool {
+	o := core.CalleeObj(in)
+	if o == nil || o.Pkg() == nil || o.Name() != "Put" {
+		return false
+	}
+	return hasSuffix(o.Pkg().Path(), "/utils/pool/pbytes") || hasSuffix(o.Pkg().Path(), "/utils/pool/pbuffer")
+}
+
+// runNoEscapeAfterPut: for every Put of a pooled object outside the pool packages, no return executed after the
+// Put (every return, for a deferred Put) yields the object or a view of its memory (Bytes(), *p, a re-slice).
+func runNoEscapeAfterPut(c *core.Ctx, R string) {
+	p := c.P
+	for _, fn := range p.Funcs {
+		if strings.HasPrefix(p.PkgRel(fn), "utils/pool") {
+			continue
+		}
+		core.AllInstrs(fn, func(in ssa.Instruction) {
+			if !isPoolPut(in) {
+				return
+			}
+			cc := core.CallCommon(in)
+			if cc == nil || len(cc.Args) == 0 {
+				return
+			}
+			c.Instance(R)
+			obj := core.Unwrap(cc.Args[len(cc.Args)-1])
+			derived := map[ssa.Value]bool{obj: true}
+			// forward closure over the function's values
+			for changed, rounds := true, 0; changed && rounds < 8; rounds++ {
+				changed = false
+				core.AllInstrs(fn, func(x ssa.Instruction) {
+					v, ok := x.(ssa.Value)
+					if !ok || derived[v] {
+						return
+					}
+					hit := false
+					switch y := x.(type) {
+					case *ssa.UnOp:
+						hit = y.Op == token.MUL && derived[core.Unwrap(y.X)]
+						// a load of a local cell that a derived value was stored into (results are spilled into
+						// such cells in functions with defers)
+						if al, ok := y.X.(*ssa.Alloc); ok && y.Op == token.MUL && al.Referrers() != nil {
+							for _, ref := range *al.Referrers() {
+								if st, ok := ref.(*ssa.Store); ok && st.Addr == ssa.Value(al) && derived[core.Unwrap(st.Val)] {
+									hit = true
+								}
+							}
+						}
+					case *ssa.Slice:
+						hit = derived[core.Unwrap(y.X)]
+					case *ssa.Phi:
+						for _, ed := range y.Edges {
+							if derived[core.Unwrap(ed)] {
+								hit = true
+							}
+						}
+					case *ssa.ChangeType:
+						hit = derived[core.Unwrap(y.X)]
+					case *ssa.Convert:
+						// []byte -> string copies; string -> []byte copies
+					case *ssa.Call:
+						if o := core.CalleeObj(y); o != nil && len(y.Call.Args) > 0 && derived[core.Unwrap(y.Call.Args[0])] {
+							switch o.Name() {
+							case "Bytes", "Next", "AvailableBuffer":
+								hit = o.Pkg() != nil && o.Pkg().Path() == "bytes"
+							}
+						}
+					case *ssa.Store:
+					}
+					if hit {
+						derived[v] = true
+						changed = true
+					}
+				})
+				// the slice stored into the cell whose address is put
+				if al, ok := obj.(*ssa.Alloc); ok && al.Referrers() != nil {
+					for _, ref := range *al.Referrers() {
+						if st, ok := ref.(*ssa.Store); ok && st.Addr == ssa.Value(al) && !derived[core.Unwrap(st.Val)] {
+							derived[core.Unwrap(st.Val)] = true
+							changed = true
+						}
+					}
+				}
+			}
+			escapes := func(ret *ssa.Return) bool {
+				for _, r := range ret.Results {
+					if derived[core.Unwrap(r)] {
+						return true
+					}
+				}
+				return false
+			}
+			var bad ssa.Instruction
+			if _, isDefer := in.(*ssa.Defer); isDefer {
+				core.AllInstrs(fn, func(x ssa.Instruction) {
+					if ret, ok := x.(*ssa.Return); ok && escapes(ret) && bad == nil {
+						bad = x
+					}
+				})
+			} else {
+				bad, _ = core.Search(in, nil, func(x ssa.Instruction) core.Action {
+					if ret, ok := x.(*ssa.Return); ok && escapes(ret) {
+						return core.Target
+					}
+					return core.Continue
+				}, nil)
+			}
+			name := "put/" + core.FName(fn) + "/no-escape"
+			if bad != nil {
+				c.Bad(R, name, p.InstrPos(bad), "the function returns (a view of) the object it gives back to the pool at "+p.InstrPos(in)+": the caller reads memory that the next Get hands to another goroutine")
+			} else {
+				c.OK(R, name, p.InstrPos(in), "nothing derived from the pooled object is returned after the Put")
+			}
+		})
 	}
 }
